@@ -1,7 +1,9 @@
 (* Stable, uniquely named entry points for the OCaml driver (extraction renames clashing
    identifiers such as eqb -> eqb0; these wrappers keep the driver independent of that). *)
 From Coq Require Import NArith ZArith List Bool.
-From Chess Require Import model.Score.
+From Chess Require Import gen.T_zobrist base.Bits base.Types base.BitBoard geom.Geometry geom.GenFns geom.Lookup model.Score model.Abi model.Text model.Tracing.
+Import ListNotations.
+Local Open Scope N_scope.
 
 Definition api_score_cmp := Score.cmp.
 Definition api_score_partial_cmp := Score.partial_cmp.
@@ -12,3 +14,108 @@ Definition api_score_gtb := Score.gtb.
 Definition api_score_max := Score.smax.
 Definition api_score_min := Score.smin.
 Definition api_score_neg := Score.neg.
+
+(* ---- geometry (C08 / C09): the coordinate definitions the tables are proved equal to ---- *)
+Definition api_color (i : N) : color := if i =? 0 then White else Black.
+Definition api_table (name s : N) : N :=
+  match name with
+  | 0 => knight_geo s | 1 => king_geo s | 2 => rook_rays_geo s | 3 => bishop_rays_geo s
+  | 4 => pawn_att_geo White s | 5 => pawn_att_geo Black s
+  | 6 => pawn_push_geo White s | 7 => pawn_push_geo Black s
+  | _ => 0
+  end.
+Definition api_between := between_geo.
+Definition api_line := line_geo.
+Definition api_dist := dist_geo.
+Definition api_rook_attacks := rook_attacks.
+Definition api_bishop_attacks := bishop_attacks.
+Definition api_pawn_quiets (c s occ : N) := pawn_quiets_spec (api_color c) s occ.
+Definition api_pawn_attacks (c s occ : N) := pawn_attacks_spec (api_color c) s occ.
+Definition api_pawn_moves (c s occ : N) := pawn_moves_spec (api_color c) s occ.
+(* constants of lib.rs as coordinate sets: rank / file unions *)
+Definition api_ranks (rs : list N) : N := set_of (filter (fun s => existsb (N.eqb (rank_of s)) rs) sq_list).
+Definition api_files (fs : list N) : N := set_of (filter (fun s => existsb (N.eqb (file_of s)) fs) sq_list).
+Definition api_squares (l : list N) : N := set_of l.
+Definition api_adjacent (i : N) : N := set_of (filter (fun s => absdiff (file_of s) i =? 1) sq_list).
+Definition api_adjacent_ranks (i : N) : N := set_of (filter (fun s => absdiff (rank_of s) i =? 1) sq_list).
+
+(* zobrist keys of the regenerated tables: kind 0 piece (flattened index), 1 castle, 2 ep, 3 turn *)
+Definition api_zk (kind i : N) : N :=
+  match kind with
+  | 0 => nthN gen.T_zobrist.piece_zobrist_tbl i | 1 => lk_castle_zobrist i | 2 => lk_ep_zobrist i
+  | _ => nthN gen.T_zobrist.turn_zobrist_tbl i
+  end.
+
+(* ---- bitboards (C18): set semantics computed from elements ---- *)
+Definition api_elements := elements.
+Definition api_bb_not := bb_not.
+Definition api_shift_up := shift_up.
+Definition api_shift_down := shift_down.
+Definition api_shift_left := shift_left.
+Definition api_shift_right := shift_right.
+Definition api_flip_ranks := flip_ranks.
+Definition api_count := count.
+Definition api_pop := pop.
+Definition api_iter_list := iter_list.
+Definition api_from_squares := from_squares.
+Definition api_from_boards := from_boards.
+Definition api_from_pos := from_pos.
+Definition api_from_file := from_file.
+Definition api_from_rank := from_rank.
+Definition api_contains := contains.
+Definition api_with := bb_with.
+Definition api_cleared := cleared.
+Definition api_or := bb_or.
+Definition api_and := bb_and.
+Definition api_xor := bb_xor.
+Definition api_diff := bb_diff.
+Definition api_any := any.
+Definition api_none := none.
+Definition api_all := bb_all.
+Definition api_some := bb_some.
+Definition api_nth_default := nth_default.
+(* set-level reference for nth: n-th element of the ascending element list, rest = later elements *)
+Definition api_nth_spec (a n : N) : option N * N :=
+  let l := elements a in
+  if n <? 64 then (nth_error l (N.to_nat n), set_of (skipn (S (N.to_nat n)) l)) else (None, 0).
+
+(* ---- ABI (C16) ---- *)
+Definition api_abi_stable_rt (m : cmove) : cmove := of_stable (to_stable m).
+Definition api_abi_eval_rt := evaluated_roundtrip.
+
+(* ---- text (C19) ---- *)
+Definition api_file_from_ascii_bytes := file_from_ascii_bytes.
+Definition api_rank_from_ascii_bytes := rank_from_ascii_bytes.
+Definition api_pos_from_ascii_bytes := pos_from_ascii_bytes.
+Definition api_piece_from_ascii_bytes := piece_from_ascii_bytes.
+Definition api_promo_from_ascii_bytes := promo_from_ascii_bytes.
+Definition api_move_from_ascii_bytes := move_from_ascii_bytes.
+Definition api_pos_show := pos_show.
+Definition api_file_show := file_show.
+Definition api_rank_show := rank_show.
+Definition api_move_show_full := move_show_full.
+Definition api_enum_from_u8 := enum_from_u8.
+Definition api_pos_file := pos_file.
+Definition api_pos_rank := pos_rank.
+Definition api_pos_new := pos_new.
+Definition api_pos_shift_up := pos_shift_up.
+Definition api_pos_shift_down := pos_shift_down.
+Definition api_pos_shift_left := pos_shift_left.
+Definition api_pos_shift_right := pos_shift_right.
+Definition api_pos_flip_rank := pos_flip_rank.
+Definition api_file_shift_left := file_shift_left.
+Definition api_file_shift_right := file_shift_right.
+Definition api_rank_shift_down := rank_shift_down.
+Definition api_rank_shift_up := rank_shift_up.
+Definition api_rank_flip := rank_flip.
+Definition api_dist_to := dist_to.
+Definition api_color_not := color_not.
+Definition api_side_not := side_not.
+Definition api_run_iter := run_iter.
+Definition api_run_allpos := run_allpos.
+Definition api_file_iter_next := file_iter_next.
+Definition api_rank_iter_next := rank_iter_next.
+Definition api_mk_range := mk_range.
+
+(* ---- tracing (C20) ---- *)
+Definition api_run_stack := run_stack.
